@@ -339,7 +339,7 @@ def match_known(known, prop, sig):
 # --------------------------------------------------------------------------------------
 # trace validation (code -> spec)
 # --------------------------------------------------------------------------------------
-def validate_trace(workdir, name, module, log_path, invariants=(), timeout=1800, max_rounds=12, xmx="8g"):
+def validate_trace(workdir, name, module, log_path, invariants=(), timeout=1800, max_rounds=12, xmx="8g", priority=None):
     """Validate an ndjson event log against spec/<module>.tla.  The trace specification is deterministic; TLC
     reports a deadlock at the first event it cannot explain.  That event's case is recorded, its events are
     removed, and validation is repeated so that the REST of the trace is checked too.
@@ -414,5 +414,24 @@ def validate_trace(workdir, name, module, log_path, invariants=(), timeout=1800,
             rejected.append({"line": None, "event": None, "case": None, "round": rnd, "invariant_violated": text[-3000:]})
             return events_ok, rejected, total_states
         raise ToolError("TLC trace validation failed (rc=%s), see %s\n%s" % (p.returncode, outp, text[-2000:]))
+    if priority is not None:
+        # Many histories are being rejected (the tree is badly broken).  Before giving up, let TLC judge the histories the
+        # caller cares most about: those containing an event that satisfies `priority` (e.g. ledger evidence for C05).
+        keep = set()
+        with open(cur) as f:
+            for t in f:
+                e = json.loads(t)
+                if e.get("case") is not None and priority(e):
+                    keep.add(e["case"])
+        if keep:
+            red = os.path.join(workdir, name + ".prio.ndjson")
+            with open(cur) as fi, open(red, "w") as fo:
+                for t in fi:
+                    if json.loads(t).get("case") in keep:
+                        fo.write(t)
+            ok2, rej2, st2 = validate_trace(workdir, name + ".prio", module, red, invariants=invariants, timeout=timeout,
+                                            max_rounds=max_rounds, xmx=xmx, priority=None)
+            rejected.extend(r for r in rej2 if r.get("event") is not None)
+            total_states += st2
     rejected.append({"line": None, "event": None, "case": None, "round": max_rounds, "note": "more rejections may exist (round limit reached)"})
     return events_ok, rejected, total_states
